@@ -24,7 +24,7 @@ static Plan gen_c14(uint64_t seed, int64_t index, bool thorough)
     Rng rng(hash_seed(seed, "C14", index));
     // xnode (throwing move) only takes part with small inputs: std::vector itself copies such elements when it grows
     // (pnode: trivially destructible, so only its COPIES are visible to the ledger -- the fixed-capacity value stack)
-    std::vector<std::string> pk = keys_for({ "G1", "G2", "G3", "G4", "G6", "G7", "G10", "G11", "G13", "G14", "G14", "G16", "G17", "G18", "G19", "G20", "G21", "G22", "G23", "G24", "G25", "G27", "T1" }, true, true);
+    std::vector<std::string> pk = keys_for({ "G1", "G2", "G3", "G4", "G6", "G7", "G10", "G11", "G13", "G14", "G14", "G16", "G17", "G18", "G19", "G20", "G21", "G22", "G23", "G24", "G25", "G27", "G28", "T1" }, true, true);
     std::string key = rng.pick(pk);
     const ref::Model* m = model_for(grammar_of(key));
     OpShape sh;
@@ -166,7 +166,7 @@ static std::vector<Violation> case_c14(const Plan& p, CaseCtx& cx)
 static Plan gen_c16(uint64_t seed, int64_t index, bool thorough)
 {
     Rng rng(hash_seed(seed, "C16", index));
-    std::vector<std::string> pk = keys_for({ "G1", "G2", "G3", "G4", "G5", "G6", "G7", "G8", "G9", "G10", "G11", "G12", "G13", "G14", "G15", "G16", "G17", "G18", "G19", "G20", "G21", "G22", "G23", "G24", "G25", "G27", "T1" });
+    std::vector<std::string> pk = keys_for({ "G1", "G2", "G3", "G4", "G5", "G6", "G7", "G8", "G9", "G10", "G11", "G12", "G13", "G14", "G15", "G16", "G17", "G18", "G19", "G20", "G21", "G22", "G23", "G24", "G25", "G27", "G28", "T1" });
     std::string key = rng.pick(pk);
     { std::vector<std::string> xk = random_grammar_keys(); if (!xk.empty() && rng.chance(1, 2)) key = rng.pick(xk); }   // thorough tier: seeded random grammars
     const ref::Model* m = model_for(grammar_of(key));
